@@ -539,7 +539,9 @@ def check_cg(rec):
     require(status == CONVERGED, "status_value", repr(status))
     if last["call"] == "final" or last["status"] == CONTINUE:
         # CG itself declared convergence (residual exactly zero): the controller never said so
-        require(last["gn"] <= last["S"], "cg_converged_nonzero_residual",
+        # (CG stops when r^H P r == 0.0 in floating point: that includes residuals whose squared norm underflows,
+        # |r| below ~1e-146 sqrt(lambda_max), which no criterion can distinguish from zero)
+        require(last["gn"] <= last["S"] + 1e-146 * max(1.0, float(np.sqrt(sysm.lmax))), "cg_converged_nonzero_residual",
                 f"CG returned CONVERGED on its own with |Ax-b| = {last['gn']:.3e} > slack {last['S']:.3e}")
         classes.append("stop_cg_zero_residual")
     else:
